@@ -14,7 +14,7 @@ Not decided: that the kept part is the *last* min(N, M) elements; order (inherit
 """
 from .. import effects, mir, shapes, tables
 from ..report import short_loc
-from . import c03, c04, c05, c08
+from . import c02, c03, c04, c05, c07, c08
 
 QUICK = ["default"]
 THOROUGH = ["default", "nostd", "alloc", "unstable", "eio_both", "eio_both_nostd"]
@@ -48,6 +48,11 @@ def run(ctx, progs):
                  ("CLONEPATH1", "elements only through iter().cloned() / push_back; clear before extend"),
                  ("FROMARR1", "From<[T;M]>: copy + destroy + disarm on every path; header bounded"), ("PS2", "no armed local under explicit destroy")):
         ctx.rule(r, t)
+    for r, t in (("OWN1", "push_back: the item is never destroyed on a normal path"), ("UNCH1", "push_back: no buffer write on a path to an Err return"),
+                 ("STORE1", "push_back: every path to None passes MaybeUninit::write(_, item) and a size increase"),
+                 ("FULL1", "push_back: None under size < N; Some (the displaced element) only under size >= N or N == 0"),
+                 ("NONE1", "pop_front / pop_back (the owning iterator): None only over edges establishing N == 0 / size == 0")):
+        ctx.rule(r, t)
     for cfg, prog in progs.items():
         c04.ctor1(ctx, prog, cfg)
         shapes.must_match(ctx, "CTOR1", prog, "<CircularBuffer<N, T> as Default>::default", [r"?call CircularBuffer::new\(\)", r"return " + NEWV], cfg,
@@ -66,6 +71,13 @@ def run(ctx, progs):
         fromarr1(ctx, prog, cfg)
         c05.ps2(ctx, prog, cfg, only=CTORS)
         c08.into1(ctx, prog, cfg)
+        # what the conversions are built from: from_iter / extend / clone feed push_back, which must store every item it
+        # is given (and displace only when full); the owning iterator is pop_front / pop_back, which must answer None
+        # only when nothing is left. Both are decided for symbolic N, so capacity 1 is covered as capacity 4 is.
+        pb = ctx.need_fn(prog, "CircularBuffer::push_back", "STORE1")
+        if pb is not None:
+            c02.check_fn(ctx, prog, pb, "push", cfg)
+        c07.none1(ctx, prog, cfg)
 
 
 def safe1(ctx, prog, cfg):
